@@ -20,7 +20,7 @@ MARK = {'d1': 1, 'd2': 2, 'h/me/d3': 3, 'h/alice/d4': 4}
 STATES = ['absent', 'file', 'dir']
 NAMES = ['f.conf', 'sub/f.conf', '@/abs.conf', '@/nope.conf', '@/d1', '~', '~/f.conf', '~alice', '~alice/f.conf', '~nouser/f.conf', '', 'd1/f.conf',
          '~alice/', '~al', '~alicex/f.conf', './f.conf', '~alice/a/b.conf', '~/a/b/c', '~alice//f.conf', '~me/f.conf', '~alice/d4/f.conf',
-         'sub/../f.conf', 'x..y.conf', '../d1/f.conf']
+         'sub/../f.conf', 'x..y.conf', '../d1/f.conf', 'c:x.conf', '\\x.conf']      # the last two: relative names like any other on this platform
 
 
 class World:
@@ -43,6 +43,8 @@ class World:
             self.fs[self.p('d1/sub/f.conf')] = ('file', 11)
         self.fs[self.p('abs.conf')] = ('file', 21)
         self.fs[self.p('d2/x..y.conf')] = ('file', 22)       # a name that merely contains two dots
+        self.fs[self.p('d2/c:x.conf')] = ('file', 23)        # a name with a colon after its first letter, one that begins with a backslash
+        self.fs[self.p('d2/\\x.conf')] = ('file', 24)
         self.fs[self.p('h/me/f.conf')] = ('file', 31)
         self.fs[self.p('h/alice/f.conf')] = ('file', 32)
         self.pw = {'me': self.p('h/me'), 'alice': self.p('h/alice')}
@@ -242,7 +244,7 @@ def shard(sh):
             world = World(root, layout)
             cases, exps = [], []
             for fill in fills:
-                c, exp, dirs = build_case(world, seq, fill, NAMES[:10] + NAMES[11:12] + NAMES[15:16] + NAMES[19:24])
+                c, exp, dirs = build_case(world, seq, fill, NAMES[:10] + NAMES[11:12] + NAMES[15:16] + NAMES[19:26])
                 cases.append(c)
                 exps.append(exp)
             for c, e, r, fill in zip(cases, exps, drv.run(cases), fills):
